@@ -3,7 +3,7 @@
 D: MultiProc.tla (mediator + one worker per handler, non-atomic or-event, pre-computed out-states used and discarded):
    no MediatorError / assert site reachable, committed out-state computed from the current in-state, pipes clean at start,
    semaphore bound, no deadlock, every run completes (weak fairness), for cores 2, 3, 4 and 2-3 legs; thorough tier also
-   4 handlers, 3 cores, 2 legs (safety only: the liveness graph of ~10^7 states does not fit the tier).
+   4 handlers, cores 2-4, 2 legs (safety only: the liveness graph of ~10^7 states does not fit the tier).
 T: real runs under the multi-process mediator with per-handler random streams under controlled schedules (a shim around
    connection.wait reports harness-chosen subsets/orders of the ready pipes; workers answer with harness-chosen delays),
    each compared with the single-process run by Lockstep.tla (no stutter); a hang, an exception or a worker process left
@@ -20,12 +20,13 @@ from harness.common import extract_printed, plain
 SOFT = ["Coulomb.event_handler=two_leaf_unit_event_handler", "TwoLeafUnitEventHandler.potential=inverse_power_potential",
         "InversePowerPotential.prefactor=1.0", "InversePowerPotential.power=2", "HypercubicSetting.beta=2"]
 DESIGN = {"quick": ["MultiProc_3.cfg", "MultiProc_3c2.cfg", "MultiProc_3c4.cfg"],
-          "thorough": ["MultiProc_3.cfg", "MultiProc_3c2.cfg", "MultiProc_3c4.cfg", "MultiProc_3x3.cfg", "MultiProc_4s.cfg"]}
+          "thorough": ["MultiProc_3.cfg", "MultiProc_3c2.cfg", "MultiProc_3c4.cfg", "MultiProc_3x3.cfg", "MultiProc_4s.cfg", "MultiProc_4sc4.cfg",
+                       "MultiProc_4sc2.cfg"]}
 
 
 def run(chk):
     quick = chk.tier == "quick"
-    chk.assumptions += ["model: 3 handlers, cores 2-4, 2-3 legs (thorough: also 4 handlers, 3 cores, 2 legs, safety only), activator/scheduler as nondeterministic environment",
+    chk.assumptions += ["model: 3 handlers, cores 2-4, 2-3 legs (thorough: also 4 handlers, cores 2-4, 2 legs, safety only), activator/scheduler as nondeterministic environment",
                         "runs: soft-sphere atoms (out-state computation draws no random numbers), 3-4 atoms, per-handler "
                         "random streams; schedules are sampled (policies x delays x cores), not all interleavings"]
     chk.trusted += ["harness/recorder.py per-handler streams and the connection.wait shim (reports a subset of the really "
